@@ -552,9 +552,12 @@ class TileGrid(object):
           <generator object ...>)
         """
         # remove 1/10 of a pixel so we don't get a tiles we only touch
+        # (but not more than the half of a bbox that is smaller than 1/5 of a pixel)
         delta = self.resolutions[level] / 10.0
-        x0, y0, _ = self.tile(bbox[0]+delta, bbox[1]+delta, level)
-        x1, y1, _ = self.tile(bbox[2]-delta, bbox[3]-delta, level)
+        delta_x = min(delta, max(bbox[2] - bbox[0], 0) / 2.0)
+        delta_y = min(delta, max(bbox[3] - bbox[1], 0) / 2.0)
+        x0, y0, _ = self.tile(bbox[0]+delta_x, bbox[1]+delta_y, level)
+        x1, y1, _ = self.tile(bbox[2]-delta_x, bbox[3]-delta_y, level)
         try:
             return self._tile_iter(x0, y0, x1, y1, level)
         except IndexError:
@@ -970,9 +973,12 @@ class MetaGrid(object):
         """
 
         # remove 1/10 of a pixel so we don't get a tiles we only touch
+        # (but not more than the half of a bbox that is smaller than 1/5 of a pixel)
         delta = self.grid.resolutions[level] / 10.0
-        x0, y0, _ = self.grid.tile(bbox[0]+delta, bbox[1]+delta, level)
-        x1, y1, _ = self.grid.tile(bbox[2]-delta, bbox[3]-delta, level)
+        delta_x = min(delta, max(bbox[2] - bbox[0], 0) / 2.0)
+        delta_y = min(delta, max(bbox[3] - bbox[1], 0) / 2.0)
+        x0, y0, _ = self.grid.tile(bbox[0]+delta_x, bbox[1]+delta_y, level)
+        x1, y1, _ = self.grid.tile(bbox[2]-delta_x, bbox[3]-delta_y, level)
 
         meta_size = self._meta_size(level)
 
